@@ -61,6 +61,12 @@ CHECKS = {
  "C02": dict(engine="S", tech=S, ref="DESIGN.md §3 C02",
    text="All interleavings (preemption bound 3 quick / 5 thorough, 2/3-4 for the 4-thread and 3-key programs) of Lock/RLock/Locks/RLocks - hold - unlock programs on the real KeyLocker, KeyLockerGrp, TKeyLocker[int], TKeyLockerGrp[int] (modulo and xxhash, 1..3 shards) incl. the pending-writer phase of the per-key RWMutex: per-key holder counters at every entry, key independence (one key held until another key's critical section finished), ordered multi-key lists with shard order different from list order, deadlock detection, entry residue at every quiescent scheduling decision and at the end.",
    note="vsync model of Mutex/RWMutex; consistently ordered duplicate-free lists only (the property's own restriction); T<=4 threads, 3 keys"),
+ "C14": dict(engine="S+I", tech=S+"; "+I, ref="DESIGN.md §3 C14",
+   text="All interleavings (preemption bound 2 quick / 3 thorough; 1/2 for three lanes; every select resolution) of callers, context cancellers, Run and Stop on the real line.Line, mline.MultiLine (1-3 slots), async.RunnerQ (AsyncCall via reflection, AsyncDelegate, AsyncProc) and async.ProcChan, the callee recording start/end per lane: at most one start per call, no overlap inside a lane, accepted order = start order (pre-cancelled-context trick), own result or own context error, equal hash = same lane = IndexOf in range, refusal only after Stop, no callee for a call issued after Stop returned, accepted calls complete (deadlock otherwise), lanes terminate; NormalizeSlotIndex/IndexOf over [-300,300], extreme integers incl. MinInt, 1..64 and 509 lanes. State cache on the happens-before fingerprint (cross-checked against uncached exploration).",
+   note="vsync model of Mutex/Cond/Once/WaitGroup/buffered channels/select; harness contexts; T<=7 threads"),
+ "C15": dict(engine="S", tech=S+" with enumerated store faults", ref="DESIGN.md §3 C15",
+   text="All interleavings (preemption bound 1-2, at most 1 injected store failure chosen by the explorer at any callback; free choices <= 3/5 with two workers) of 2-3 callers issuing the seven operations on colliding keys over an instrumented in-memory store, for map and LRU caches and 1-2 workers, plus ALL operation sequences of length 3 quick / 4 thorough over two keys with every failure placement: store callbacks of one key never overlap, accepted order = store order, whenever no operation on a key is in flight the cached value equals the store's (every scheduling decision and after every operation), successful delete leaves no cache entry, add on a cached key = duplicate error without a store call.",
+   note="a failing store callback leaves the store unchanged; cache observed through the overlay hook VerifCachePeek in inspect mode (no schedule point)"),
 }
 NA = {}
 
